@@ -12,18 +12,18 @@ example : (run ct [body1]).flags = 0x1000 ||| 0x8000 ||| 0x40 ||| 0x2 := by deci
 example : (run ct [body1]).parts.map (·.type) = [2] := by decide +kernel
 example : ((run ct [body1]).parts.map (·.name)) = [some (b!"a\"b")] := by decide +kernel
 example : (run ct [body1]).events = [(0, some (b!"he\r\nllo")), (0, none)] := by decide +kernel
--- S16: the first CR is lost when CR|CR straddles a chunk border
-example : ((run ct [(b!"--B\r\nContent-Disposition: form-data; name=\"a\"\r\n\r\nx\r"), (b!"\r\n--B--")]).parts.map (·.value)) = [some (b!"x")] := by decide +kernel
+-- S16 (repaired in /repo): no CR is lost when CR|CR straddles a chunk border
+example : ((run ct [(b!"--B\r\nContent-Disposition: form-data; name=\"a\"\r\n\r\nx\r"), (b!"\r\n--B--")]).parts.map (·.value)) = [some (b!"x\r")] := by decide +kernel
 example : ((run ct [(b!"--B\r\nContent-Disposition: form-data; name=\"a\"\r\n\r\nx\r\r\n--B--")]).parts.map (·.value)) = [some (b!"x\r")] := by decide +kernel
--- boundary text ending a chunk: the final "--" is not recognised
-example : hasFlag (run ct [(b!"--B"), (b!"--\r\n")]).flags SEEN_LAST_BOUNDARY = false := by decide +kernel
+-- boundary text ending a chunk: the final "--" is recognised in the next chunk (F3, repaired in /repo)
+example : hasFlag (run ct [(b!"--B"), (b!"--\r\n")]).flags SEEN_LAST_BOUNDARY = true := by decide +kernel
 example : hasFlag (run ct [(b!"--B--\r\n")]).flags SEEN_LAST_BOUNDARY = true := by decide +kernel
 example : (findBoundary (b!"multipart/form-data; boundary=\"a b\" ")) = (some (b!"a b"), 0x600) := by decide +kernel
--- set-aside data is dropped by finalize when no part exists yet: whole body -> no part, cut body -> a preamble part
-example : (run ct [(b!"a\r\n")]).parts.length = 0 := by decide +kernel
+-- F4 (repaired in /repo): set-aside data is no longer dropped by finalize when no part exists yet
+example : ((run ct [(b!"a\r\n")]).parts.map (·.value)) = [some (b!"a\r\n")] := by decide +kernel
 example : ((run ct [(b!"a"), (b!"\r\n")]).parts.map (·.value)) = [some (b!"a\r\n")] := by decide +kernel
--- S17: a cut inside a header line leaves the line ending in the header value
-example : ((run ct [(b!"--B\r\nX"), (b!": v\r\n\r\n")]).parts.map (·.headers)) = [[{ name := (b!"X"), value := (b!"v\r\n") }]] := by
+-- S17 (repaired in /repo): a cut inside a header line does not leave the line ending in the header value
+example : ((run ct [(b!"--B\r\nX"), (b!": v\r\n\r\n")]).parts.map (·.headers)) = [[{ name := (b!"X"), value := (b!"v") }]] := by
   decide +kernel
 example : ((run ct [(b!"--B\r\nX: v\r\n\r\n")]).parts.map (·.headers)) = [[{ name := (b!"X"), value := (b!"v") }]] := by
   decide +kernel
